@@ -612,6 +612,7 @@ func extractC03() *lean {
 	c03DpopFacts(l)
 	c03FsListFacts(l)
 	c03ExternalFacts(l)
+	c03ConfigFacts(l)
 	return l
 }
 
